@@ -85,6 +85,23 @@ func nodeID(n jv) string   { return n.arr[0].s }
 func nodeTy(n jv) int      { return int(n.arr[1].i) }
 
 var lastInfo fileInfo // the first save of the last history (distribution bookkeeping only)
+var distCounts = map[string]int{}
+
+func run_count(k string) { distCounts[k]++ }
+
+// applyOps runs the ops; reads ("eval") are not part of what the model is told
+func applyOps(inst *graph.Instance, ops []Op) (opsCoq, oks []string) {
+	opsCoq, oks = []string{}, []string{}
+	for _, op := range ops {
+		s, o := applyOp(inst, op)
+		if s == "" {
+			continue
+		}
+		opsCoq = append(opsCoq, s)
+		oks = append(oks, hx.CoqBool(o.ok))
+	}
+	return
+}
 
 // histCases runs one history; it yields one case, or two when the reload differs only by the known
 // over-read / missing Image description (the second case carries the observations after undoing exactly
@@ -95,16 +112,10 @@ func histCases(d histDesc) []hx.Case {
 	c.Key = string(keyb)
 
 	inst := graph.New(newFactory())
-	opsCoq := make([]string, len(d.Ops))
-	oks := make([]string, len(d.Ops))
-	for i, op := range d.Ops {
-		s, o := applyOp(inst, op)
-		opsCoq[i] = s
-		oks[i] = hx.CoqBool(o.ok)
-	}
+	opsCoq, oks := applyOps(inst, d.Ops)
 	fail := func(msg, key string) []hx.Case {
 		c.GoFail, c.FailKey = msg, key
-		c.Coq = fmt.Sprintf("CHist false [%s] [%s] JNull JNull JNull [] false None None None 0 0",
+		c.Coq = fmt.Sprintf("CHist false [%s] [%s] JNull JNull JNull [] false None None None 0 0 None",
 			strings.Join(opsCoq, ";\n  "), strings.Join(oks, ";"))
 		return []hx.Case{c}
 	}
@@ -150,13 +161,34 @@ func histCases(d histDesc) []hx.Case {
 		}
 		return "None"
 	}
-	render := func(modulo bool, sumB, artB, f2 jv, d2, dApp string) string {
-		return fmt.Sprintf("CHist %v\n [%s]\n [%s]\n %s\n %s\n %s\n [%s] %v\n %s\n %s\n %s\n %s %s",
+	render := func(modulo bool, sumB, artB, f2 jv, d2, dApp, cont string) string {
+		return fmt.Sprintf("CHist %v\n [%s]\n [%s]\n %s\n %s\n %s\n [%s] %v\n %s\n %s\n %s\n %s %s\n %s",
 			modulo, strings.Join(opsCoq, ";\n  "), strings.Join(oks, ";"),
 			a.sum.Coq(), a.art.Coq(), a.sv.info.tree.Coq(), strings.Join(digs, ";"), ro.ok,
-			same(a.sum, sumB), same(a.art, artB), same(a.sv.info.tree, f2), d2, dApp)
+			same(a.sum, sumB), same(a.art, artB), same(a.sv.info.tree, f2), d2, dApp, cont)
 	}
-	c.Coq = render(false, b.sum, b.art, file2, dig2, digApp)
+	// the continuation: the same further edits on the live and on the reloaded instance, then everything again
+	continuation := func() (string, string) {
+		if len(d.Cont) == 0 {
+			return "None", ""
+		}
+		opsL, oksL := applyOps(inst, d.Cont)
+		_, oksR := applyOps(inst2, d.Cont)
+		l := observe(inst, d)
+		if l.err != "" {
+			return "None", "after the continuation: " + l.err
+		}
+		re := observe(inst2, d)
+		sumR, artR, fileR, digR := jstr(re.err), jnull(), jnull(), "0"
+		if re.err == "" {
+			sumR, artR, fileR, digR = re.sum, re.art, re.sv.info.tree, digest(re.sv.bytes).s
+		}
+		return fmt.Sprintf("(Some (mkcont\n [%s]\n [%s] [%s]\n %s\n %s\n %s\n %s\n %s\n %s\n %s %s))",
+			strings.Join(opsL, ";\n  "), strings.Join(oksL, ";"), strings.Join(oksR, ";"),
+			l.sum.Coq(), l.art.Coq(), l.sv.info.tree.Coq(), same(l.sum, sumR), same(l.art, artR), same(l.sv.info.tree, fileR),
+			digest(l.sv.bytes).s, digR), ""
+	}
+	c.Coq = render(false, b.sum, b.art, file2, dig2, digApp, "None")
 	c.Nontriv = a.sv.info.nDeps >= 1 && len(a.sv.info.ids) >= 2
 	out := []hx.Case{c}
 
@@ -166,6 +198,14 @@ func histCases(d histDesc) []hx.Case {
 	}
 	strict := ro.ok && sameDigs && a.sum.equal(b.sum) && a.art.equal(b.art) && a.sv.info.tree.equal(file2) &&
 		dig2 == digs[0] && digApp == digs[0]
+	if strict && len(d.Cont) > 0 {
+		cont, err := continuation()
+		if err != "" {
+			return fail(err, "graph:save-fails")
+		}
+		out[0].Coq = render(false, b.sum, b.art, file2, dig2, digApp, cont)
+		run_count("continuation:after-identical-reload")
+	}
 	if strict || !ro.ok || !sameDigs {
 		return out
 	}
@@ -230,7 +270,15 @@ func histCases(d histDesc) []hx.Case {
 		}
 	}
 	c2 := hx.Case{Kind: "hist", Desc: d, Key: c.Key + "|modulo", Nontriv: false}
-	c2.Coq = render(true, m.sum, m.art, m.sv.info.tree, digest(m.sv.bytes).s, digs[0])
+	cont := "None"
+	if modOK && len(d.Cont) > 0 {
+		var err string
+		if cont, err = continuation(); err != "" {
+			return fail(err, "graph:save-fails")
+		}
+		run_count("continuation:after-repaired-reload")
+	}
+	c2.Coq = render(true, m.sum, m.art, m.sv.info.tree, digest(m.sv.bytes).s, digs[0], cont)
 	return append(out, c2)
 }
 
@@ -367,6 +415,9 @@ func main() {
 	}
 	for k, n := range imageKinds {
 		run.Dist["image-upload:"+k] += n
+	}
+	for k, n := range distCounts {
+		run.Dist[k] += n
 	}
 	run.Finish()
 }
